@@ -503,6 +503,15 @@ impl Send {
         // Clear all pending outbound frames
         self.prioritize.clear_queue(buffer, stream);
         self.prioritize.reclaim_all_capacity(stream, counts);
+
+        // A scheduled reset is normally completed when the stream is popped
+        // from the send queue. A stream whose DATA was blocked on flow control
+        // is not in that queue, so complete the reset here.
+        if !stream.is_pending_send {
+            if let Some(reason) = stream.state.get_scheduled_reset() {
+                stream.set_reset(reason, Initiator::Library);
+            }
+        }
     }
 
     pub fn apply_remote_settings<B>(
